@@ -184,7 +184,9 @@ def check_reduce(res, case, sr, universe, contrib, model_ok):
                     mismatch = mismatch or {"relation": "values the model folds into the container on each owner = real final contents",
                                             "what": f"rank {r}: model {p['stored']} real {real_by_rank[r]}"}
                 for (c, k, v) in p["out"]:
-                    if c == 0:
+                    if k not in owner:
+                        mismatch = mismatch or {"relation": "every packed value belongs to one key of the script", "what": f"rank {r} packed key {k}"}
+                    elif c == 0:
                         hopq.append((r, k, v))
                     elif owner.get(k) != r:
                         mismatch = mismatch or {"relation": "container operations are issued by the owner only", "what": f"rank {r} key {k}"}
@@ -256,6 +258,8 @@ def run(tier, seed, model_ok=True):
         results = C.pmap(do, list(enumerate(cases)), workers=max(2, C.NCPU // 2))
     for case, sr, universe, contrib in results:
         check_reduce(res, case, sr, universe, contrib, model_ok)
+    # a disagreement hidden by an idempotent operator or a lucky schedule: same script, sum, other schedules
+    c15.search_around(res, binary, check_reduce, run_one, model_ok, force={"op": 0})
     return res
 
 
